@@ -1,6 +1,7 @@
 from common import COMMON_ASSUME
 
 PROP = dict(
+    technique='property-based testing of generated thread programs under ThreadSanitizer plus comparison of every concurrent result with the sequentially computed one',
     harness=['c17_threads.c', 'vf_arr.c'],
     libs=['-pthread'],
     confirm=1,             # schedule dependent: one reproduction in three
